@@ -1,8 +1,7 @@
 #!/bin/bash
-# usage: mkwt.sh <name>   -> scratch worktree of /repo HEAD under /tmp/wt/<name> with a warm target dir
+# usage: mkwt.sh <name>   -> scratch worktree of /repo HEAD under /tmp/wt/<name> (fresh target dir: the first build compiles everything)
 set -e
 N=$1
 mkdir -p /tmp/wt
 git -C /repo worktree add --detach /tmp/wt/$N HEAD >/dev/null 2>&1
-cp -r /repo/target /tmp/wt/$N/target
 echo /tmp/wt/$N
